@@ -946,6 +946,165 @@ def r1110(P, u, rep):
     rep.ob('R11.10', '%s:%s:integers-first' % (TU, fn), ok, msg, where=where)
 
 
+# ============================================================================ R11.12 ===
+# tokenize() also runs on buffers that end at their NUL without a newline: the body of a -D macro (define_macro), the
+# spelling produced by ## (paste) and by # (new_str_token).  Every spelling of the corpus is cut after each of its
+# bytes; each cut is one such buffer.
+END_CORPUS = [
+    ('pp-number', ['0', '12', '0x1F', '0xFE', '0XAE', '0x7e', '1e5', '1E5', '1e+5', '1E-5', '1.5e+3', '0x1p3', '0x1P-3', '0x1.8p+1', '.5', '.5e-1', '1.',
+                   '1..2', '1u', '1UL', '1ll', '017', '0b101', '1.0f', '1.0L', '0x1P', '1p', 'x=0xE', '-1e', '08e', '0xep', '1eE']),
+    ('string-literal', ['"abc"', '""', '"a\\n"', '"\\""', '"\\\\"', '"\\x41"', '"\\101"', '"\\0"', 'u8"a\\n"', 'u"aé"', 'U"\U0001F363"', 'L"a\\x41"',
+                        '"é"', '"a" "b"']),
+    ('char-literal', ["'a'", "'\\n'", "'\\''", "'\\\\'", "'\\x41'", "'\\101'", "'\\0'", "u'a'", "U'\U0001F363'", "L'\\x41'", "'é'", "'ab'", "u'あ'"]),
+    ('identifier', ['abc', '_x1', 'u8x', 'L', 'U', 'é1', 'aあ', 'return', 'a b', 'xe', 'xP']),
+    ('punctuator', ['<<=', '>>=', '...', '->', '##', '+', '-', '.', '==', '&&', '#', '/', '/=', '++', '--', '(', 'a.b', 'a->b']),
+    ('line-comment', ['// c', '//', 'a // c', '1//e']),
+    ('block-comment', ['/* c */', '/**/', '1 /* c */', 'a/*"*/']),
+    ('white-space', ['x \t\f\v', ' ', 'x\n ']),
+]
+
+
+def end_state(cls, b):
+    """what the last bytes of buffer b are (names the obligation: the guards a scanner needs differ per state)"""
+    if cls == 'line-comment' and b'//' in b:
+        return 'inside-comment'
+    if cls == 'block-comment' and b'/*' in b and b'*/' not in b[b.index(b'/*') + 2:]:
+        return 'inside-comment'
+    k = 0
+    while k < len(b) and b[len(b) - 1 - k] == 0x5c:
+        k += 1
+    if k % 2:
+        return 'dangling-backslash'
+    if k:
+        return 'escaped-backslash'
+    c = b[-1]
+    ch = chr(c)
+    if c >= 0x80:
+        return 'non-ascii-byte'
+    if ch == '"':
+        return 'double-quote'
+    if ch == "'":
+        return 'single-quote'
+    if ch in 'eEpP':
+        return 'exponent-letter'
+    if ch in '+-':
+        return 'sign'
+    if ch == '.':
+        return 'period'
+    if ch.isdigit():
+        return 'digit'
+    if ch.isalpha() or ch == '_':
+        return 'letter'
+    if ch in ' \t\n\v\f\r':
+        return 'white-space'
+    return 'punctuation'
+
+
+def lex_at_end(P, u, data):
+    """tokenize() on a buffer that consists of `data` and its terminating NUL (lib_c11.watched_cstring), then
+    convert_pp_number() on every pp-number token (what convert_pp_tokens does with it).
+    returns (result signature | None, bytes read behind the terminator, description)"""
+    p, w, lim = L.watched_cstring(data)
+    it = L.CInterp(P, u, {'models': L.make_models()})
+
+    def mk(ctx):
+        f = Obj('File', lazy=False)
+        f.fields['contents'] = p
+        f.fields['name'] = 'x.c'
+        f.fields['display_name'] = 'x.c'
+        f.fields['file_no'] = 1
+        return [f]
+    try:
+        ctx, out = L.run1(it, 'tokenize', mk)
+    except AnalysisBroken as e:
+        return None, max(0, w.hi - lim), 'no outcome (%s)' % e
+    over = max(0, w.hi - lim)
+    lx = Lexed(it, ctx, out)
+    if lx.crash:
+        return ('crash',), over, lx.describe(u)
+    if lx.error:
+        return ('diagnostic',), over, lx.describe(u)
+    if w.hi < lim:
+        raise AnalysisBroken('tokenize returned without the buffer watch seeing a read of the terminator: the over-read detection is not alive')
+    if over:
+        return None, over, 'tokens taken from memory behind the buffer'
+    kinds, texts = lx.kinds(u), lx.texts()
+    desc = lx.describe(u)
+    nums = []
+    for t, k in zip(lx.toks, kinds):
+        if k != 'TK_PP_NUM':
+            continue
+        it2 = L.CInterp(P, u, {'models': L.make_models()})
+        try:
+            ctx2, out2 = L.run1(it2, 'convert_pp_number', [t])
+        except AnalysisBroken as e:
+            return None, max(0, w.hi - lim), 'convert_pp_number: no outcome (%s)' % e
+        over = max(over, w.hi - lim)
+        if out2[0] == 'ret':
+            fv = t.fields.get('fval', 0)
+            nums.append(('num', t.fields.get('kind'), L.type_sig(it2, t.fields.get('ty', 0)), t.fields.get('val', 0),
+                         fv.name if isinstance(fv, Sym) else fv))
+        else:
+            nums.append((out2[0],))
+        desc += ' -> %s' % ('%s constant' % (TYN.get(nums[-1][2]) or (nums[-1][2] or ('?',))[0][3:].lower()) if out2[0] == 'ret' else 'invalid numeric constant')
+    return ('tokens', tuple(kinds), tuple(texts), tuple(nums)), over, desc
+
+
+def r1112(P, u, rep):
+    fn = 'tokenize'
+    _need(u, fn, 'convert_pp_number')
+    rep.rule('R11.12', 'a buffer that ends at its NUL without a newline (macro body of -D, result of ## or #) is tokenized without reading memory behind the '
+             'terminator, and its tokens and numeric constants are those of the same text followed by a newline; every cut of every literal, identifier, '
+             'punctuator and comment spelling of the corpus is such a buffer', floor=40)
+    where = _where(u, fn)
+    groups = {}
+    order = []
+    for cls, spellings in END_CORPUS:
+        seen = set()
+        for s in spellings:
+            b = s.encode('utf-8')
+            for i in range(1, len(b) + 1):
+                cut = b[:i]
+                if cut in seen:
+                    continue
+                seen.add(cut)
+                g = '%s/%s' % (cls, end_state(cls, cut))
+                if g not in groups:
+                    groups[g] = {'n': 0, 'over': None, 'diff': None, 'und': None}
+                    order.append(g)
+                G = groups[g]
+                G['n'] += 1
+                sig, over, desc = lex_at_end(P, u, cut)
+                shown = cut.decode('utf-8', 'replace')
+                if over:
+                    if G['over'] is None:
+                        G['over'] = 'on the buffer `%s` (NUL directly after it) the scanner reads %d byte(s) of the memory behind the terminator (outcome: %s); what it ' \
+                            'finds there is not part of the text: the next command line argument after a -D, or unallocated memory' % (shown, over, desc)
+                    continue
+                if sig is None:
+                    if G['und'] is None:
+                        G['und'] = 'tokenize on the buffer `%s`: %s' % (shown, desc)
+                    continue
+                sig2, over2, desc2 = lex_at_end(P, u, cut + b'\n')
+                if sig2 is None or over2:
+                    if G['und'] is None:
+                        G['und'] = 'tokenize on the text `%s` followed by a newline: %s' % (shown, desc2)
+                    continue
+                if sig != sig2 and G['diff'] is None:
+                    G['diff'] = 'the buffer `%s` (NUL directly after it) becomes %s; the same text followed by a newline becomes %s' % (shown, desc, desc2)
+    if sum(G['n'] for G in groups.values()) < 250:
+        raise AnalysisBroken('end-of-buffer sample set collapsed')
+    for g in order:
+        G = groups[g]
+        key = '%s:%s:at-end-of-buffer/%s' % (TU, fn, g)
+        if G['und'] is not None:
+            rep.undecided('R11.12', key, G['und'], where=where)
+            continue
+        rep.ob('R11.12', key + ':reads-stay-inside-the-buffer', G['over'] is None, G['over'] or '', where=where)
+        if G['over'] is None:
+            rep.ob('R11.12', key + ':same-result-as-with-newline', G['diff'] is None, G['diff'] or '', where=where)
+
+
 # ============================================================================ R11.11 ===
 # C11 Annex D.1 (ranges of characters allowed in identifiers) and D.2 (not allowed initially)
 ANNEX_D1 = [(0xA8, 0xA8), (0xAA, 0xAA), (0xAD, 0xAD), (0xAF, 0xAF), (0xB2, 0xB5), (0xB7, 0xBA), (0xBC, 0xBE), (0xC0, 0xD6), (0xD8, 0xF6), (0xF8, 0xFF),
@@ -1005,13 +1164,16 @@ def run(P, rep, tier):
                        'Integer constants: digits and suffix concrete, value symbolic, so every path of the type ladder is compared with C11 6.4.4.1p5 on each '
                        'value interval its own decisions distinguish. Escapes, prefixes, UTF-8/UTF-16 codecs, source normalisation, concatenation and the '
                        'pp-number scanner: concrete interpretation on boundary/single-bit code points and on one spelling per grammar alternative. '
+                       'End of buffer (R11.12): every cut of every corpus spelling is tokenized as a buffer that ends at its NUL without a newline, with a '
+                       'watched red zone behind the terminator: any read behind the terminator is a violation, and tokens/constants must equal those of the '
+                       'newline-terminated text. '
                        'Not decided: strtoul/strtold themselves, code points other than the sampled ones.')
     rep.assumptions += ['libc functions behave as ISO C 7.4/7.22/7.24 specify (python models)', 'x86-64: char is signed, LP64',
                         'UTF-8/UTF-16 oracles are python\'s codecs (RFC 3629 / RFC 2781)']
     _need(u, 'tokenize', 'tokenize_file', 'convert_pp_int', 'convert_pp_number', 'read_escaped_char', 'read_utf16_string_literal')
     for rule, f in (('R11.1', lambda: r111(P, u, rep)), ('R11.3', lambda: r113(P, u, rep)), ('R11.4', lambda: r114(P, rep)),
                     ('R11.5', lambda: r115(P, u, rep)), ('R11.6', lambda: r116(P, u, rep)), ('R11.7', lambda: r117(P, u, rep)),
-                    ('R11.8', lambda: r118(P, u, rep)), ('R11.9', lambda: r119(P, u, rep)), ('R11.10', lambda: r1110(P, u, rep)), ('R11.11', lambda: r1111(P, rep))):
+                    ('R11.8', lambda: r118(P, u, rep)), ('R11.9', lambda: r119(P, u, rep)), ('R11.10', lambda: r1110(P, u, rep)), ('R11.11', lambda: r1111(P, rep)), ('R11.12', lambda: r1112(P, u, rep))):
         try:
             f()
         except AnalysisBroken as e:
